@@ -30,7 +30,7 @@ package roaring
 //@ spec isBm(c *Container) = c != nil && c.typeID == 2
 //@ spec isRun(c *Container) = c != nil && c.typeID == 3
 //@ spec wfArr(c *Container) = isArr(c) && sorted16(c.$arr) && len(c.$arr) <= 65536
-//@ spec wfRuns(c *Container) = isRun(c) && sortedRuns(c.$runs) && len(c.$runs) <= 32768
+//@ spec wfRuns(c *Container) = isRun(c) && sortedRuns(c.$runs) && len(c.$runs) <= 2147483646
 //@ spec wfBm(c *Container) = isBm(c) && len(c.$bm) == 1024
 //@ spec wfT(c *Container) = wfArr(c) || wfRuns(c) || wfBm(c)
 //@ spec mem(c *Container, v int) = c != nil && ((c.typeID == 1 && memArr(c.$arr, v)) || (c.typeID == 2 && memBm(c.$bm, v)) || (c.typeID == 3 && memRuns(c.$runs, v)))
@@ -103,7 +103,7 @@ package roaring
 //@   loop 2 decreases hi - lo + 1
 
 //@ contract binSearchRuns props C01
-//@   requires sortedRuns(a) && len(a) <= 32768
+//@   requires sortedRuns(a) && len(a) <= 2147483646
 //@   ensures 0 <= result0 && result0 <= len(a)
 //@   ensures result1 ==> result0 < len(a) && a[result0].start <= v && v <= a[result0].last
 //@   ensures !result1 ==> (forall k :: 0 <= k && k < result0 ==> a[k].last < v)
@@ -230,6 +230,7 @@ package roaring
 //@   requires c != nil && wfBm(c) && c.n < 2147483647
 //@   modifies c.flags, c.pointer, c.len, c.cap, c.data, c.typeID, c.n, c.$arr, c.$runs, c.$bm, elems(c.$arr), elems(c.$runs), elems(c.$bm)
 //@   ensures result0 != nil ==> (result0.$arr.ref == 0 || result0.$arr.ref == old(c.$arr.ref) || fresh(result0.$arr)) && (result0.$runs.ref == 0 || result0.$runs.ref == old(c.$runs.ref) || fresh(result0.$runs)) && (result0.$bm.ref == 0 || result0.$bm.ref == old(c.$bm.ref) || fresh(result0.$bm))
+//@   ensures result0 == nil || result0 == c || fresh(result0)
 //@   ensures result0 != nil && wfBm(result0)
 //@   ensures (old(c.flags) & 3) == 0 ==> result0 == c
 //@   ensures result1 <==> !old(mem(c, v))
